@@ -122,8 +122,14 @@ def setup_sym(R):
     class Rec:
         def __init__(self, **k):
             self.__dict__.update(k)
-    instrument.register(R.base_wallet.BaseWallet.from_mnemonic.__func__,
-                        lambda cls, mnemonic, password="", testnet=False: Rec(mnemonic=mnemonic, password=password, testnet=testnet))
+
+    def rec_from_mnemonic(cls, mnemonic, password="", testnet=False):
+        # fault injection: the first k wallet constructions report an invalid master key (BIP32: IL = 0 or >= n)
+        if INVALID_FIRST[0] > 0:
+            INVALID_FIRST[0] -= 1
+            raise R.bip32.InvalidKeyError("master key is invalid (injected)")
+        return Rec(mnemonic=mnemonic, password=password, testnet=testnet)
+    instrument.register(R.base_wallet.BaseWallet.from_mnemonic.__func__, rec_from_mnemonic)
 
 
 def _entry(R, via, nwords, testnet):
@@ -192,6 +198,83 @@ def fresh_sym(E, R, nwords, via, testnet):
 
 
 FAIL_OS = [False]
+INVALID_FIRST = [0]
+
+
+def invalid_first(E, R, nwords, via, testnet, k):
+    """the first k seeds give an invalid master key (injected InvalidKeyError; natively: HMAC substituted).  BIP32 asks
+    for an error; whatever the library does instead, a wallet that comes back has ENT bits of entropy drawn from the OS
+    source of a draw of its own -- never from the seedable generator"""
+    import z3
+    from z3 import z3util
+    from sx.instrument import sx_fromhex
+    f = _entry(R, via, nwords, testnet)
+    ent = ENT[nwords]
+    if not E.symbolic:
+        return invalid_first_native(E, R, nwords, via, testnet, k)
+    S.u_calls, S.m_vars, S.captured = [], [], []
+    INVALID_FIRST[0] = k
+    try:
+        r = E.run(f)
+    finally:
+        INVALID_FIRST[0] = 0
+    if isinstance(r, Raised):
+        E.check(isinstance(r.exc, R.bip32.InvalidKeyError), "an invalid master key is reported (or another draw is made); nothing else goes wrong")
+        return "reported"
+    eb = S.captured[-1] if S.captured else None
+    if eb is None or isinstance(eb, (bytes, str)) and not hasattr(eb, "bs") and not hasattr(eb, "items"):
+        E.fail("after an invalid first seed: entropy of the wallet handed out comes from the OS random source")
+        return "concrete"
+    eb = sx_fromhex(eb) if not hasattr(eb, "bs") else eb
+    if isinstance(eb, bytes):
+        E.fail("after an invalid first seed: entropy of the wallet handed out comes from the OS random source")
+        return "concrete"
+    used = {str(v) for v in z3util.get_vars(z3.simplify(eb.bv()))}
+    E.check(len(eb) * 8 == ent and used and all(n.startswith("U") for n in used),
+            "after an invalid first seed: entropy of the wallet handed out comes from the OS random source")
+    E.check(not any(n.startswith("M") for n in used), "after an invalid first seed: no dependence on the seedable generator")
+    return "retried"
+
+
+def invalid_first_native(E, R, nwords, via, testnet, k):
+    import hmac as _hmac
+    import hashlib
+    f = _entry(R, via, nwords, testnet)
+    if via == "bits":
+        return "n/a"
+    count = [0]
+    real = R.helper.hmac_sha512
+
+    def fake(key, msg):
+        if key == b"Bitcoin seed":
+            count[0] += 1
+            if count[0] <= k:
+                return b"\x00" * 64
+        return real(key, msg)
+    log = []
+    real_u = os.urandom
+
+    def meter(n):
+        log.append(n)
+        return real_u(n)
+    saved = (os.urandom, _random._urandom, R.bip32.hmac_sha512)
+    os.urandom, _random._urandom, R.bip32.hmac_sha512 = meter, meter, fake
+    try:
+        outs = []
+        for _ in range(2):
+            count[0] = 0
+            del log[:]
+            _random.seed(7)
+            r = E.run(f)
+            if isinstance(r, Raised):
+                E.check(isinstance(r.exc, R.bip32.InvalidKeyError), "an invalid master key is reported (or another draw is made); nothing else goes wrong")
+                return "reported"
+            outs.append(r.mnemonic)
+            E.check(sum(log) * 8 >= (k + 1) * ENT[nwords], "after an invalid first seed: entropy of the wallet handed out comes from the OS random source")
+        E.check(outs[0] != outs[1], "after an invalid first seed: no dependence on the seedable generator")
+    finally:
+        os.urandom, _random._urandom, R.bip32.hmac_sha512 = saved
+    return "retried"
 
 
 def os_unavailable(E, R, nwords, via, testnet):
@@ -269,6 +352,8 @@ def cases(tier):
             for via in ("new_wallet", "from_entropy_bits"):
                 cs.append(Case("fresh[%d,%s,testnet=%s]" % (n, via, t), "fresh", dict(nwords=n, via=via, testnet=t),
                                need=("the ENT entropy bits are ENT distinct OS bits (distinct draws give distinct wallets)",)))
+    for n, via, t, k in ((12, "new_wallet", False, 1), (24, "from_entropy_bits", True, 1), (15, "new_wallet", True, 2)):
+        cs.append(Case("invalid_first[%d,%s,k=%d]" % (n, via, k), "invalid_first", dict(nwords=n, via=via, testnet=t, k=k)))
     for n, via, t in ((12, "bits", False), (24, "new_wallet", True), (18, "from_entropy_bits", False)):
         cs.append(Case("os_unavailable[%d,%s]" % (n, via), "os_unavailable", dict(nwords=n, via=via, testnet=t),
                        need=("no mnemonic is produced when the OS random source is unavailable",)))
@@ -277,4 +362,5 @@ def cases(tier):
 
 def vectors():
     return [("fresh", dict(nwords=n, via="bits", testnet=False), {}) for n in (12, 24)] + \
-           [("fresh", dict(nwords=15, via="new_wallet", testnet=True), {})]
+           [("fresh", dict(nwords=15, via="new_wallet", testnet=True), {}),
+            ("invalid_first", dict(nwords=12, via="new_wallet", testnet=False, k=1), {})]
